@@ -313,6 +313,17 @@ class RecheckCheck:
                 gs.insert(0, {"scale": scale, "B": B, "P": P, "shape": "D3x",
                               "sizes_list": [v], "cids": [0, 0, 0],
                               "seed": seed, "tier": tier, "maxdmg": 1})
+        # environment forms of the content and of the path naming it (real
+        # scale): spellings of the content path, a sub-directory reached
+        # through a symbolic link, files removed together with their
+        # directories, files stored with holes
+        for sh, v in (("D3", [20000, 40000, 5]), ("D4n", [5, 40000, 0, 33000]),
+                      ("S1", [40000])):
+            for form in ("spell", "linked-subdir", "prune", "sparse"):
+                if sh == "S1" and form in ("linked-subdir", "prune"):
+                    continue
+                gs.insert(0, {"kind": "env", "form": form, "shape": sh,
+                              "sizes": v, "seed": seed, "tier": tier})
         # payloads whose piece string / pieces roots are well-formed UTF-8 text
         # (a decoder that returns text-like byte strings as str answers
         # differently for them), library and command line
@@ -501,6 +512,10 @@ class RecheckCheck:
                     if mpath in ln and content in ln)
                 self.last_printed = [float(x) for x in re.findall(
                     r"(?<![\w.])(\d+(?:\.\d+)?)\s*%", text)]
+                if len(content) < 3:
+                    # "." / "..": the result line cannot be told apart by
+                    # the content argument; only the returned value is judged
+                    self.last_printed = None
                 return ("pct", val)
             with tf.quiet():
                 c = tf.recheck.Checker(mpath, content)
@@ -719,9 +734,154 @@ class RecheckCheck:
                     self.write_state(root, files, changed, restore=True)
         return found
 
+    def run_env(self, g, res):
+        """Environment forms at real scale; every family; intact content and
+        each single removal / one flip per file."""
+        import shutil
+        seed, form = g["seed"], g["form"]
+        P = 16384
+        w = {"scale": "R", "B": REAL_B, "P": P, "shape": g["shape"],
+             "sizes": g["sizes"]}
+        if form == "sparse":
+            w["cids"] = ["holesA", "holesB", "holesC", "holesD"][
+                :len(g["sizes"])]
+        fams = families(g["tier"], world.nfiles(g["shape"]))
+        found = []
+        single = g["shape"] == "S1"
+        with tf.scale(REAL_B):
+            files, parent, root, metas = self.setup_world(w, seed, fams)
+            base = os.path.dirname(parent)
+            if form == "sparse":
+                # same bytes, stored with holes
+                shutil.rmtree(root) if os.path.isdir(root) else os.remove(root)
+                world.materialize(files, parent, shape=w["shape"], sparse=True)
+            linked = None
+            if form == "linked-subdir":
+                # the first sub-directory of the payload lives elsewhere and is
+                # reached through a symbolic link
+                sub = next(rel[0] for rel, _ in files if len(rel) > 1)
+                store = os.path.join(base, "elsewhere")
+                os.makedirs(store)
+                shutil.move(os.path.join(root, sub), os.path.join(store, "dd"))
+                os.symlink(os.path.join("..", "..", "elsewhere", "dd"),
+                           os.path.join(root, sub))
+                linked = sub
+            # variants: (label, cwd, path argument, directory that is judged)
+            variants = [("plain", None, root, root)]
+            twin = None
+            if form == "spell":
+                variants = [("rel", parent, world.ROOT_NAME, root),
+                            ("./rel", parent, "./" + world.ROOT_NAME, root),
+                            ("parent-dot", parent, ".", root)]
+                if not single:
+                    variants.append(("trail-sep", None, root + os.sep, root))
+                    variants.append(("dot", root, ".", root))
+                    sub = next((rel[0] for rel, _ in files if len(rel) > 1),
+                               None)
+                    if sub:
+                        variants.append(("dotdot", os.path.join(root, sub),
+                                         "..", root))
+                # link -> other/inbox: `link/../top` is other/top for the
+                # operating system and parent/top for a textual collapse
+                other = os.path.join(base, "other")
+                os.makedirs(os.path.join(other, "inbox"))
+                os.symlink(os.path.join(other, "inbox"),
+                           os.path.join(parent, "link"))
+                twin = world.materialize(files, other, shape=w["shape"])
+                variants.append(("link/..-real-damaged", parent,
+                                 "link/../" + world.ROOT_NAME, twin))
+                variants.append(("link/..-lexical-damaged", parent,
+                                 "link/../" + world.ROOT_NAME, twin))
+            dmgs = [()]
+            for i, (rel, data) in enumerate(files):
+                if data:
+                    dmgs.append((("rm", i, 0),))
+                    dmgs.append((("flip", i, len(data) // 2),))
+
+            def target(tree_root, rel):
+                return os.path.join(tree_root, *rel) if rel else tree_root
+
+            def set_state(tree_root, changed, restore=False):
+                for i in changed:
+                    rel, orig = files[i]
+                    pth = target(tree_root, rel)
+                    data = orig if restore else changed[i]
+                    if data is None:
+                        if os.path.exists(pth):
+                            os.remove(pth)
+                        if form == "prune":
+                            d = os.path.dirname(pth)
+                            while d != tree_root and not os.listdir(d):
+                                os.rmdir(d)
+                                d = os.path.dirname(d)
+                    else:
+                        os.makedirs(os.path.dirname(pth), exist_ok=True)
+                        with open(pth, "wb") as f:
+                            f.write(data)
+
+            for dmg_set in dmgs:
+                changed = apply_damage(files, dmg_set)
+                if form == "prune" and (not dmg_set or dmg_set[0][0] != "rm"):
+                    continue
+                for label, cwd, arg, judged in variants:
+                    # which tree carries the damage
+                    damaged_tree = judged
+                    if label == "link/..-lexical-damaged":
+                        damaged_tree = root
+                    if single and dmg_set and dmg_set[0][0] == "rm" and \
+                            damaged_tree == judged:
+                        continue
+                    set_state(damaged_tree, changed)
+                    disk = self.disk_of(files, changed if damaged_tree ==
+                                        judged else {})
+                    eff = dmg_set if damaged_tree == judged else ()
+                    for fam in fams:
+                        mpath, meta = metas[fam]
+                        if mpath is None:
+                            continue
+                        want, _v, _t = model.recheck_model(meta, disk, REAL_B)
+                        for cli in (False, True):
+                            oldcwd = os.getcwd()
+                            try:
+                                if cwd:
+                                    os.chdir(cwd)
+                                self.last_printed = None
+                                got = self.run_impl(mpath, arg, cli=cli)
+                            finally:
+                                os.chdir(oldcwd)
+                            res.states += 1
+                            res.transitions += 1
+                            res.evals += 1
+                            res.validated += 1
+                            bad = self.judge(fam, meta, eff, got, want, False)
+                            res.outcomes[f"env:{form}:{dmg_class(eff)}:"
+                                         f"{'ok' if not bad else bad[0][1]}"] += 1
+                            for prop, prob in bad:
+                                if prop != self.id:
+                                    continue
+                                ver = model.meta_version_of(meta[b"info"])
+                                found.append((
+                                    f"{prop}|{fam}|v{ver}|{prob}|env:{form}:"
+                                    f"{label}|{dmg_class(eff)}",
+                                    {"kind": "env", "group": g,
+                                     "variant": label + (":cli" if cli else ""),
+                                     "family": fam,
+                                     "damage": [list(d) for d in dmg_set]},
+                                    {"reported": got, "reference": want,
+                                     "linked": linked}))
+                    set_state(damaged_tree, changed, restore=True)
+        return found
+
     def run_group(self, g):
         if g.get("kind") == "iofault":
             return self.run_iofault(g)
+        if g.get("kind") == "env":
+            res = core.Result()
+            for sig, case, d in self.run_env(g, res):
+                res.violation(sig, case, d)
+            res.sample({"kind": "env", "form": g["form"],
+                        "shape": g["shape"], "sizes": g["sizes"]})
+            return res
         res = core.Result()
         seed = g["seed"]
         fams = families(g["tier"], world.nfiles(g["shape"]))
@@ -802,6 +962,13 @@ class RecheckCheck:
         return res
 
     def replay(self, case):
+        if case.get("kind") == "env":
+            res = core.Result()
+            return [{"sig": sg, "detail": d}
+                    for sg, c, d in self.run_env(case["group"], res)
+                    if c["variant"] == case["variant"]
+                    and c["family"] == case["family"]
+                    and c["damage"] == case["damage"]]
         if case.get("kind") == "iofault":
             r = self.run_iofault({"family": case["family"],
                                   "seed": case["seed"], "tier": "quick"})
